@@ -100,7 +100,7 @@ def dump(cases, tag, timeout=900):
 # --------------------------------------------------------------------------
 # TLC validation
 
-def batches(protos, max_recs=2500, max_words=400000):
+def batches(protos, max_recs=3500, max_words=500000):
     out, cur, words = [], [], 0
     for p in protos:
         w = len(p["hi"]) + len(p["kt"])
@@ -153,7 +153,7 @@ def run_mc(thorough, stats):
     out = []
     for cfg, maxlen in (("BytecodeMC_ops", 1), ("BytecodeMC_frame", 2 if thorough else 1),
                         ("BytecodeMC_full" if thorough else "BytecodeMC_core", 3)):
-        r = vlib.run_tlc("BytecodeMC", cfg, consts={"MaxLen": maxlen}, workers=8, timeout=2400)
+        r = vlib.run_tlc("BytecodeMC", cfg, consts={"MaxLen": maxlen}, workers=4, timeout=2400)
         wfp = r.tag("WFP")
         ngroup = sum(1 for w in wfp if w["g"] > 0)
         njump = sum(1 for w in wfp if w["j"] > 0)
@@ -239,7 +239,10 @@ def run(tier):
     stats = {"states": 0, "transitions": 0}
     cov = {"rules_fired": {}}
     vlib.build_harness()
-    mc = run_mc(thorough, stats)
+    # the spec's own model checking runs beside the corpus pipeline (4 + 2 x 4 TLC workers)
+    mcpool = ThreadPoolExecutor(max_workers=1)
+    mcstats = {"states": 0, "transitions": 0}
+    mcfut = mcpool.submit(run_mc, thorough, mcstats)
     cases = build(tier, vlib.seed())
     # the few giant sources (long jumps, 25k-field constructors) go through the harness separately
     giant = [c for c in cases if c["fam"] in ("big-longjump",)]
@@ -254,6 +257,10 @@ def run(tier):
         for p in pr:
             verdicts[off + p["id"]] = vs[p["id"]]
             protos.append(p)
+    mc = mcfut.result()       # MC failure / TLC error = vlib.Infra, raised here
+    mcpool.shutdown()
+    stats["states"] += mcstats["states"]
+    stats["transitions"] += mcstats["transitions"]
     # accounting
     byid = {c["id"]: c for c in cases}
     fam = {}
@@ -385,7 +392,9 @@ def selftest():
             ("final RETURN replaced by NOP", "code:last-instruction-not-RETURN", mut(lambda r: r["hi"].__setitem__(len(r["hi"]) - 1, 41 * 1024))),
             ("line table too long", "line-table:length", mut(lambda r: r.update(nline=r["nline"] + 1))),
             ("global name constant is a number", "string-key:GETGLOBAL", mut(lambda r: r["kt"].__setitem__(r["lo"][gpc], 2))),
-            ("string table out of step", "string-constants:content", mut(lambda r: r["sk"].__setitem__(0, "zz")))]
+            ("string table out of step", "string-constants:content", mut(lambda r: r["sk"].__setitem__(0, "zz"))),
+            ("more locals in scope than registers", "locals:more-live-locals", mut(lambda r: (
+                r["ls"].extend([0] * (r["nreg"] + 1)), r["le"].extend([len(r["hi"])] * (r["nreg"] + 1)))))]
     for i, (_, _, r) in enumerate(recs):
         r["id"] = i + 1
     vs = validate([r for _, _, r in recs], "selftest", {"states": 0, "transitions": 0})
